@@ -4,7 +4,7 @@
    (u64) and IWKV_BACKUP_MAGIC (u32).  Opening it splits the two parts again and replays the log over the main
    part in recover_mode 2 (reset marks are ignored: the log part starts at the stage-2 truncation). *)
 Require Import ZArith List Bool Lia.
-Require Import IW.Lib.CInt IW.Gen.Facts IW.WAL.Rec IW.WAL.Scan IW.WAL.Replay.
+Require Import IW.Lib.CInt IW.Gen.Facts IW.WAL.Rec IW.WAL.Scan IW.WAL.Replay IW.WAL.Proto.
 Import ListNotations.
 Local Open Scope Z_scope.
 
@@ -33,3 +33,21 @@ Definition open_image (ccrc : bool) (img : bytes) : verdict * bytes * list aop :
   | Some (main, wal) => recover ccrc 2 0 wal main
   | None => (VOk, img, [])
   end.
+
+(* ---- the five stages of iwal_online_backup over Proto's state, with writer activity at the two places where the
+   backup thread holds no lock: evM while the main file is copied (stage MAIN_COPY: _checkpoint_exl is a no-op,
+   the main file on disk does not change - file growth there is the known finding and is excluded), evA after the
+   log buffer was flushed for WAL_COPY1 and before the exclusive lock of WAL_COPY2 (a checkpoint there applies the
+   log to the live main file, keeps the log and appends SEP+RESET: Proto.rollforward_live).
+   Result: the image, and the live state after the call (stage 0 again). *)
+Definition set_stage (s : pstate) (st : Z) : pstate :=
+  mkP (p_buf s) (p_log s) (p_disk s) (p_rfoff s) st (p_fatal s).
+
+Definition backup_run (c : pcfg) (s0 : pstate) (ts2 ts5 : Z) (evM evA : list event) : bytes * pstate :=
+  let (s1, _) := checkpoint c (set_stage s0 BKP_WAL_CLEANUP) false ts2 in   (* stage 2: checkpoint + truncation *)
+  let main := p_disk s1 in                                                   (* stage 3: pread of the main file *)
+  let (s2, _) := run c (set_stage s1 BKP_MAIN_COPY) evM in
+  let (s3, _) := flush_wl c (set_stage s2 BKP_WAL_COPY1) false in            (* stage 4: flush, copy the log *)
+  let (s4, _) := run c s3 evA in
+  let (s5, _) := savepoint c (set_stage s4 BKP_WAL_COPY2) ts5 true in        (* stage 5: savepoint, copy the rest *)
+  (mk_image main (p_log s5), set_stage s5 0).
